@@ -87,6 +87,18 @@ BK == <<Ret(Bin("add", CallKw("sub2", <<b, a>>, <<"a", "b">>), CallKw("dflt", <<
 ASSUME \A pt \in {E(I(i), I(j)) : i, j \in {0 - 1, 0, 1, 2}} : PWAgrees(<<"a", "b">>, BK, FTD, pt, RefMode)
 ASSUME \E pt \in {E(I(i), I(j)) : i, j \in {0 - 1, 0, 1, 2}} : ~PWAgrees(<<"a", "b">>, BK, FTD, pt, [sim |-> FALSE, eq |-> TRUE])
 
+\* name resolution: a function-level import / closure cell shadows the module binding, for the function itself only
+Alt == [K |-> ConstDef(I(6)), sub2 |-> FnDef(<<"a", "b">>, <<Ret(Bin("sub", Bin("mul", b, Num(2)), a))>>)]
+BS == <<Ret(Bin("add", Bin("mul", a, Const("K")), Bin("add", Call("sub2", <<a, b>>), Call("kmulx", <<b>>))))>>
+FTS == FT @@ [kmulx |-> FnDef(<<"a">>, <<Ret(Bin("mul", a, Const("K")))>>),
+              kcell |-> FnDefS(<<"a">>, <<>>, <<Ret(Bin("mul", a, Const("K")))>>, <<[K |-> ConstDef(I(10))]>>)]
+ASSUME RunIn(BS, E(I(1), I(2)), <<>>, FTS).v = I(4 + (0 - 1) + 8)
+ASSUME RunIn(BS, E(I(1), I(2)), <<Alt>>, FTS).v = I(6 + 3 + 8)            \* callee kmulx still sees the module's K
+ASSUME RunIn(BS, E(I(1), I(2)), <<[K |-> ConstDef(I(7))], Alt>>, FTS).v = I(7 + 3 + 8)   \* innermost scope wins
+ASSUME RunIn(<<Ret(Call("kcell", <<b>>))>>, E(I(1), I(2)), <<Alt>>, FTS).v = I(20)      \* the callee's own cell
+ASSUME \A pt \in {E(I(i), I(j)) : i, j \in {0 - 1, 0, 1, 2}} :
+          PWAgreesT(TranslateBody(<<"a", "b">>, BS, View(<<Alt>>, FTS), RefMode), BS, View(<<Alt>>, FTS), pt)
+
 \* reference translation, and the two wrong instances
 Pts == {E(I(i), I(j)) : i, j \in {0 - 1, 0, 1, 2}}
 Bs == {B1, B2, B3, B4, B5}
